@@ -68,8 +68,9 @@ def isSublistB {α} [DecidableEq α] : List α → List α → Bool
   | _ :: _, [] => false
   | a :: l, b :: m => if a = b then isSublistB l m else isSublistB (a :: l) m
 
+/-- at least two different profiles of the equivalence group hit the gene -/
 def qualifies (eqGroup : List Int) (hits : List FHit) : Bool :=
-  decide (2 ≤ (eqGroup.eraseDups.filter fun p => hits.any fun h => h.prof == p).length)
+  decide (2 ≤ ((ASV.Refine.firstOcc eqGroup).filter fun p => hits.any fun h => h.prof == p).length)
 
 def equivSpec (eqGroups : List (List Int)) (input out : List FHit) : EquivVerdict where
   sublist := isSublistB out input
